@@ -333,6 +333,69 @@ theorem C07_usable_after_fallback {W : Type} (S : ServerEnv) (K : ClientEnv) (c 
 theorem C07_usable_after_batch (o : ClientOut) : usableAfter (o, ConnFate.active) = true := by
   simp [usableAfter]
 
+/-! ## proxies that retry (MAX_RETRIES / _pyroMaxRetries ≥ 1) -/
+
+theorem retryLoop_some (K : ClientEnv) (m : Nat) (run : Nat → ClientOut × ConnFate) :
+    ∀ (rem att : Nat), att + rem = m + 1 → 1 ≤ rem →
+      ∃ r k, retryLoop K m run rem att = (some r, k + 1) ∧ att ≤ k ∧ k ≤ m ∧ r = run k
+        ∧ (retryable K r.1.outcome = true → k = m) := by
+  intro rem
+  induction rem with
+  | zero => intro att _ h; omega
+  | succ n ih =>
+    intro att hsum _
+    unfold retryLoop
+    by_cases hr : retryable K (run att).1.outcome = true
+    · simp only [hr, if_true]
+      by_cases hlast : att ≥ m
+      · rw [if_pos hlast]
+        exact ⟨run att, att, rfl, Nat.le_refl _, by omega, rfl, fun _ => by omega⟩
+      · rw [if_neg hlast]
+        obtain ⟨r, k, h1, h2, h3, h4, h5⟩ := ih (att + 1) (by omega) (by omega)
+        exact ⟨r, k, h1, by omega, h3, h4, h5⟩
+    · simp only [hr, Bool.false_eq_true, if_false]
+      refine ⟨run att, att, rfl, Nat.le_refl _, by omega, rfl, ?_⟩
+      intro h; exact absurd h hr
+
+/-- **C07_retry_never_none.**  With the loop bound of the code (`range(max_retries + 1)`), whatever every attempt
+    does and for every `max_retries`: a method call never falls out of the retry loop — it ends with what one of its
+    attempts did (it *raises* the last attempt's communication error instead of returning None), after at most
+    `max_retries + 1` sends, and an attempt whose outcome is not a ConnectionClosed/TimeoutError is final. -/
+theorem C07_retry_never_none (K : ClientEnv) (m : Nat) (run : Nat → ClientOut × ConnFate) :
+    ∃ r k, remoteMethod K (retryBound m) m run = (some r, k + 1) ∧ k ≤ m ∧ r = run k
+      ∧ (retryable K r.1.outcome = true → k = m) := by
+  obtain ⟨r, k, h1, _, h3, h4, h5⟩ := retryLoop_some K m run (m + 1) 0 (by omega) (by omega)
+  exact ⟨r, k, h1, h3, h4, h5⟩
+
+/-- **C07_retry_forwarded_once.**  An attempt that ends in anything but a ConnectionClosed/TimeoutError (a forwarded
+    exception in particular) is not repeated: the call does what the first attempt did, the remote code ran once. -/
+theorem C07_retry_forwarded_once (K : ClientEnv) (m : Nat) (run : Nat → ClientOut × ConnFate)
+    (h : retryable K (run 0).1.outcome = false) :
+    remoteMethod K (retryBound m) m run = (some (run 0), 1) := by
+  unfold remoteMethod retryBound retryLoop
+  simp only [h, Bool.false_eq_true, if_false]
+
+/-- **C07_roundtrip_retry.**  The round trip through a retrying proxy: same conclusion as `C07_roundtrip_partial`,
+    for every `max_retries`, with one execution of the remote code (the raised class is no ConnectionClosed/TimeoutError
+    on the caller's side). -/
+theorem C07_roundtrip_retry {W : Type} (S : ServerEnv) (K : ClientEnv) (c : Codec W) (norm : Val → Val)
+    (dom : Val → Prop) (law : CodecLaw c norm dom) (R : Render) (cb : Bool) (e : Exc) (tb : Val) (m : Nat)
+    (hcontent : Content norm dom e tb) (hres : resolves K.names e.cls = some e.cls)
+    (hctor : K.ctor e.cls e.args = .ok (e.cls, e.args)) (hsend : Sendable (S.info e.cls))
+    (hnc : (K.info e.cls).isConnClosed = false) (hnt : (K.info e.cls).isPyroTimeout = false) :
+    remoteMethod K (retryBound m) m (fun _ => clientCall S K c R (.plain cb) (.raise e) tb)
+      = (some (raisedBy K (withTraceback tb e), fateAfter (S.info e.cls) cb), 1) := by
+  have hrt := C07_roundtrip_partial S K c norm dom law R (.plain cb) e tb hcontent hres hctor hsend
+  rw [C07_retry_forwarded_once K m _ (by
+    simp only [hrt, raisedBy, retryable, withTraceback, hnc, hnt, Bool.or_false])]
+  simp only [hrt, CallKind.isCallback]
+
+/-- why the bound matters: with `range(max(max_retries, 1))` and `max_retries = 1`, a call whose every attempt loses
+    the connection falls out of the loop — the call returns None.  (Obligation `C07_gen_retry_shape` pins the bound.) -/
+theorem C07_retry_bound_matters (K : ClientEnv) :
+    (remoteMethod K (max 1 1) 1 (fun _ => (⟨[], .connLost, true⟩, .dropped))).1.isNone = true := by
+  rfl
+
 /-! ## classes the receiver does not know -/
 
 /-- **C07_unknown_class.**  An exception of a class outside the receiver's whitelist (an application class
@@ -562,6 +625,30 @@ theorem C07_gen_client_shape :
     ∧ Pyro.Gen.C07.batchResultIsGenerator = true
     ∧ Pyro.Gen.C07.batchResultTests = ["isinstance(result, core._ExceptionWrapper)"]
     ∧ Pyro.Gen.C07.batchResultRaise = ["result.raiseIt()"] := by decide
+
+/-- attribute access calls the accessor of the class's property object directly — `v.fget(obj)` / `v.fset(obj, value)`
+    with `v = getattr(obj.__class__, propname)` — so what the accessor raises is what reaches handleRequest's handler
+    (an `AttributeError` of the getter is not diverted to the instance's `__getattr__` by Python's attribute protocol) -/
+theorem C07_gen_accessor_shape :
+    Pyro.Gen.C07.propGetReturns = ["v.fget(obj)"] ∧ Pyro.Gen.C07.propSetReturns = ["v.fset(obj, value)"]
+    ∧ Pyro.Gen.C07.propGetReturnsLookup = ["getattr(obj.__class__, propname)"]
+    ∧ Pyro.Gen.C07.propSetReturnsLookup = ["getattr(obj.__class__, propname)"] := by decide
+
+/-- the retry loop of a method call: `for attempt in range(self.__max_retries + 1)`, `return self.__send(…)` inside a
+    try whose only handler catches ConnectionClosedError / TimeoutError and re-raises on the last attempt; attribute
+    reads bypass it -/
+theorem C07_gen_retry_shape :
+    Pyro.Gen.C07.retryTarget = "attempt" ∧ Pyro.Gen.C07.retryRange = "range(self.__max_retries + 1)"
+    ∧ Pyro.Gen.C07.retryTry = ["return self.__send(self.__name, args, kwargs)"]
+    ∧ Pyro.Gen.C07.retryCatches = ["errors.ConnectionClosedError", "errors.TimeoutError"]
+    ∧ Pyro.Gen.C07.retryHandler = ["if attempt >= self.__max_retries:\n    raise"]
+    ∧ Pyro.Gen.C07.attrReadCalls = ["_RemoteMethod(self._pyroInvoke, name, self._pyroMaxRetries)",
+        "self._pyroInvoke('__getattr__', (name,), None)"] := by decide
+
+/-- the two Pyro5 classes the retry loop catches are flagged as such, and nothing else in the whitelist is -/
+theorem C07_gen_retry_classes :
+    (Pyro.Gen.C07.classFlags.filter (fun r => r.2.isConnClosed || r.2.isPyroTimeout)).map Prod.fst
+      = [cs "Pyro5.errors.ConnectionClosedError", cs "Pyro5.errors.TimeoutError"] := by decide +kernel
 
 /-! ## the partial theorems instantiated with the extracted tables -/
 
